@@ -1,6 +1,150 @@
 package props
 
-import "github.com/relab/hotstuff/zverif/ev"
+import (
+	"context"
+	"fmt"
+	"sort"
+	"strings"
 
-// c14Concurrent is the controlled-scheduler part (E2); filled in by sched build.
-func c14Concurrent(r *ev.Reporter) {}
+	"github.com/relab/hotstuff/core/eventloop"
+	"github.com/relab/hotstuff/zverif/ev"
+	"github.com/relab/hotstuff/zverif/fix"
+	"github.com/relab/hotstuff/zverif/mcrt"
+)
+
+type evP struct{ P, N int } // event N of producer P
+
+// c14Concurrent: concurrent producers, the consumer in Run, and a canceller, under the
+// controlled scheduler (engine E2).
+func c14Concurrent(r *ev.Reporter) {
+	if !mcrtAvailable() {
+		r.Assume("concurrent part skipped: binary built without the scheduler overlay")
+		return
+	}
+	bound := 2
+	if !r.Quick() {
+		bound = 3
+	}
+	type scen struct {
+		name      string
+		producers int
+		events    int
+		capacity  uint
+		cancel    bool
+		bound     int
+	}
+	scens := []scen{
+		{"2 producers x 2 events, capacity 8, canceller after producers", 2, 2, 8, true, bound},
+		{"3 producers x 1 event, capacity 8, canceller after producers", 3, 1, 8, true, bound - 1},
+		{"2 producers x 2 events, capacity 2 (overflow), canceller after producers", 2, 2, 2, true, bound},
+		{"2 producers x 1 event, capacity 8, no canceller (stall observation)", 2, 1, 8, false, bound},
+	}
+	var summary []string
+	var stalls int64
+	for _, sc := range scens {
+		sc := sc
+		run := func(s *mcrt.Sched) (string, string) {
+			lg := &fix.NopLogger{Keep: true}
+			var handled []evP
+			var el *eventloop.EventLoop
+			runDone := false
+			s.Run(func() {
+				el = eventloop.New(lg, sc.capacity)
+				eventloop.Register(el, func(e evP) { handled = append(handled, e) })
+				ctx, cancel := context.WithCancel(context.Background())
+				mcrt.GoNamed("consumer", func() { el.Run(ctx); runDone = true })
+				for p := 1; p <= sc.producers; p++ {
+					p := p
+					mcrt.GoNamed(fmt.Sprintf("producer%d", p), func() {
+						for n := 1; n <= sc.events; n++ {
+							el.AddEvent(evP{p, n})
+						}
+					})
+				}
+				if sc.cancel {
+					mcrt.GoNamed("canceller", func() {
+						for p := 1; p <= sc.producers; p++ {
+							mcrt.Join(fmt.Sprintf("producer%d", p))
+						}
+						cancel()
+					})
+				} else {
+					_ = cancel
+				}
+			})
+			if s.Broken != "" {
+				return "", "harness: " + s.Broken
+			}
+			// oracle
+			count := map[evP]int{}
+			last := map[int]int{}
+			var order []string
+			for _, e := range handled {
+				count[e]++
+				order = append(order, fmt.Sprintf("%d.%d", e.P, e.N))
+				if e.N <= last[e.P] {
+					return strings.Join(order, " "), fmt.Sprintf("events of producer %d handled out of order: %v", e.P, order)
+				}
+				last[e.P] = e.N
+			}
+			dropped := map[evP]int{}
+			for _, wmsg := range lg.Warns {
+				var e evP
+				if _, err := fmt.Sscanf(wmsg, "event queue is full, dropped event: {%d %d}", &e.P, &e.N); err == nil {
+					dropped[e]++
+				}
+			}
+			for p := 1; p <= sc.producers; p++ {
+				for n := 1; n <= sc.events; n++ {
+					e := evP{p, n}
+					switch {
+					case count[e] > 1:
+						return strings.Join(order, " "), fmt.Sprintf("event %v handled %d times", e, count[e])
+					case count[e] == 1 && dropped[e] > 0:
+						return strings.Join(order, " "), fmt.Sprintf("event %v was handled and also reported as dropped", e)
+					case dropped[e] > 1:
+						return strings.Join(order, " "), fmt.Sprintf("event %v reported as dropped %d times", e, dropped[e])
+					case count[e] == 0 && dropped[e] == 0 && runDone:
+						return strings.Join(order, " "), fmt.Sprintf("event %v was neither handled nor reported as dropped although the loop drained and returned", e)
+					}
+				}
+			}
+			if int(sc.capacity) >= sc.producers*sc.events && len(dropped) > 0 {
+				return strings.Join(order, " "), fmt.Sprintf("events reported as dropped below capacity: %v", dropped)
+			}
+			if sc.cancel && !runDone {
+				return strings.Join(order, " "), "Run did not return after cancellation"
+			}
+			if !sc.cancel && s.Deadlock && len(handled) < sc.producers*sc.events {
+				stalls++ // consumer parked while events are queued: observation, not part of C14
+			}
+			sort.Strings(order)
+			return fmt.Sprintf("handled=%d dropped=%d", len(handled), len(dropped)), ""
+		}
+		res := mcrt.Explore(sc.bound, 0, run, func(f mcrt.Failure) {
+			r.Violation("C14 concurrent: "+classify(f.Msg), fmt.Sprintf("scenario %q, schedule [%s]: %s", sc.name, strings.Join(f.Trace, " "), f.Msg), map[string]any{"scenario": sc.name, "choices": f.Choices, "trace": f.Trace})
+		}, func() bool { return r.Violations() > 5 })
+		if res.Broken != "" {
+			ev.Broken("C14 scheduler: %s", res.Broken)
+		}
+		r.Count(res.Executions, res.Steps, res.Executions, int64(len(res.Outcomes)))
+		summary = append(summary, fmt.Sprintf("%s: executions=%d steps=%d completed_preemption_bound=%d (of %d) distinct_outcomes=%d", sc.name, res.Executions, res.Steps, res.Completed, sc.bound, len(res.Outcomes)))
+	}
+	r.Extra["concurrent_scenarios"] = summary
+	r.Extra["concurrent_preemption_bound"] = bound
+	r.Extra["observation_consumer_stalled_with_events_queued"] = stalls
+	r.Assume("a consumer that parks in Run while an event is queued (missed ready signal) is recorded as an observation only: C14 is about order and multiplicity, not promptness")
+}
+
+// mcrtAvailable reports whether the explored files were compiled against the controlled runtime.
+func mcrtAvailable() bool {
+	probe := false
+	s := &mcrt.Sched{}
+	s.Run(func() {
+		el := eventloop.New(&fix.NopLogger{}, 2)
+		before := len(s.Steps)
+		el.AddEvent(evP{0, 0})
+		probe = len(s.Steps) > before
+	})
+	return probe
+}
